@@ -146,6 +146,62 @@ def partial_call(partial):
 
 
 # --------------------------------------------------------------------------------------------
+# anti-vacuity canaries: corrupted copies of accepted real lines must all be rejected by the judge
+# --------------------------------------------------------------------------------------------
+def canaries(chk, calls, bad):
+    import copy
+    out = []
+
+    def pick(pred):
+        for i, r in enumerate(calls):
+            if i not in bad and pred(r):
+                return copy.deepcopy(r)
+        return None
+
+    r = pick(lambda r: r["f"] == "memcpy" and r["n"] >= 16 and r["L"] <= 256)
+    if r:
+        c = copy.deepcopy(r); c["runs"][1][3] += 1; out.append(("copy offset shifted by one", c))
+        c = copy.deepcopy(r); c["ret"] += 1; out.append(("return value off by one", c))
+        c = copy.deepcopy(r)
+        d = c["runs"][0][1]
+        c["runs"] = [[0, d - 1, 0, 0], [d - 1, 1, 1, 77]] + c["runs"][1:]
+        out.append(("one byte written just below the destination", c))
+        c = copy.deepcopy(r)
+        last = c["runs"][-1]
+        c["runs"] = c["runs"][:-1] + [[last[0], 1, 1, 78], [last[0] + 1, last[1] - 1, 0, 0]]
+        out.append(("one byte written just above the destination", c))
+        c = copy.deepcopy(r); c["runs"][1][1] -= 1; c["runs"][2][0] -= 1; c["runs"][2][1] += 1
+        out.append(("last destination byte not copied", c))
+    r = pick(lambda r: r["f"] == "memmove" and r["n"] >= 16 and r["L"] <= 256 and 0 < r["d"] - r["s"] < r["n"])
+    if r:
+        c = copy.deepcopy(r)
+        k = r["d"] - r["s"]
+        c["runs"] = [[0, r["d"], 0, 0], [r["d"], k, 0, -k], [r["d"] + k, r["n"] - k, 0, -2 * k]] + c["runs"][2:]
+        out.append(("overlapping memmove done forwards (source overwritten before read)", c))
+    r = pick(lambda r: r["f"] == "memset" and r["n"] >= 16 and r["L"] <= 256 and r["c"] == 165)
+    if r:
+        c = copy.deepcopy(r); c["runs"][1][3] = 164; out.append(("wrong fill byte", c))
+    r = pick(lambda r: r["f"] == "memcmp" and r["p"] < r["n"])
+    if r:
+        c = copy.deepcopy(r); c["ret"] = -c["ret"]; out.append(("memcmp sign flipped", c))
+        c = copy.deepcopy(r); c["ret"] = 0; out.append(("memcmp reports equal", c))
+    r = pick(lambda r: r["f"] == "bcmp" and r["p"] == r["n"] and r["n"] > 0)
+    if r:
+        c = copy.deepcopy(r); c["ret"] = 1; out.append(("bcmp reports a difference for equal ranges", c))
+    r = pick(lambda r: r["f"] in ("memcpy", "memmove") and r["L"] > 256)
+    if r:
+        c = copy.deepcopy(r); c["runs"][1][3] += 1; out.append(("large copy: offset shifted by one", c))
+        c = copy.deepcopy(r); c["runs"][1][1] -= 1; c["runs"][2][0] -= 1; c["runs"][2][1] += 1
+        out.append(("large copy: last byte not copied", c))
+    if not out:
+        return 0
+    rej, n = judge(chk, [c for _, c in out], "canary")
+    missed = [out[i][0] for i in range(len(out)) if i not in rej]
+    if missed:
+        raise core.ToolError("MemJudge accepted corrupted lines (vacuous judge?): %s" % missed)
+    return len(out)
+
+
 def model_check(chk, tier):
     cfgs = [("MemAlg_w2.cfg", 8), ("MemAlg_w4.cfg", 8), ("MemAlg_w8.cfg", 8)]
     if tier != "quick":
@@ -204,6 +260,7 @@ def run(tier):
         plans.append(("large", "large %d 400 1048576" % chk.seed, None))
 
     nontrivial = set()
+    ncanary = 0
     per_fn = {}
     for build, binary in builds.items():
         for tag, cmd, expect in plans:
@@ -226,6 +283,7 @@ def run(tier):
                 if got != expect:
                     raise core.ToolError("probe enumeration incomplete: got %s expected %s" % (got, expect))
             bad, n = judge(chk, calls, "%s_%s" % (build, tag))
+            ncanary += canaries(chk, calls, bad) if build == "debug" else 0
             chk.traces += n - len(bad)
             chk.evaluations += n
             for r in calls:
@@ -260,6 +318,7 @@ def run(tier):
                        "the arena is a 64-byte aligned static: 'misalignment' is the address modulo 16"]
     chk.extra["calls_per_function"] = per_fn
     chk.extra["builds"] = sorted(builds)
+    chk.extra["canaries_rejected"] = ncanary
     chk.extra["tlc_states_total"] = chk.states
     chk.extra["tlc_judged_lines"] = chk.traces
     return chk.finish()
@@ -282,3 +341,22 @@ def replay(path):
     for i, r in enumerate(calls):
         print(("REJECTED " if i in bad else "accepted ") + json.dumps(r)[:500])
     return 1 if bad else 0
+
+
+def selftest():
+    """(1) the canaries of a quick run (corrupted lines rejected), (2) one stored negative patch must yield a
+    VIOLATION, one benign patch must not."""
+    rc = run("quick")
+    if rc != 0:
+        print("selftest: quick run on the unchanged tree did not exit 0")
+        return 1
+    ev = json.load(open(os.path.join(core.out_dir("evidence"), "C08.json")))
+    print("selftest: %d canaries rejected" % ev["coverage"].get("canaries_rejected", 0))
+    ok = ev["coverage"].get("canaries_rejected", 0) > 0
+    for slug, want in (("C08-memmove-always-forward", 0), ("C08-benign-threshold32", 1)):
+        p = subprocess.run([os.path.join(core.VERIF, "bin", "mutant-test"), os.path.join(core.VERIF, "seeded", slug, "patch.diff"), "C08"],
+                           stdout=subprocess.PIPE, stderr=subprocess.STDOUT, timeout=3000)
+        print("selftest: %s -> mutant-test rc=%d (expected %d)" % (slug, p.returncode, want))
+        ok = ok and p.returncode == want
+    print("selftest ok" if ok else "selftest FAILED")
+    return 0 if ok else 2
